@@ -159,7 +159,11 @@ impl Gate {
     pub fn fire(&self, rng: &mut Rng) {
         self.fired.store(true, Ordering::SeqCst);
         let w = self.cur.lock().unwrap().take();
-        if let Some(w) = w { w.wake(); }
+        if let Some(w) = w {
+            // an event source may call the waker any number of times: sometimes do so, back to back
+            if rng.chance(1, 3) { for _ in 0..rng.range(1, 2) { w.wake_by_ref(); } }
+            w.wake();
+        }
         if self.keep_stale {
             let mut st: Vec<Waker> = std::mem::take(&mut *self.stale.lock().unwrap());
             rng.shuffle(&mut st);
@@ -350,8 +354,19 @@ impl Span {
         if before != 0 {
             let other = st.inside.load(ORD) as i64 - 1;
             let ok = if other >= 0 { ctx.prog.ops[other as usize].kind.name() } else { "?" };
-            ctx.report("C01", "overlap_at_enter", format!("overlap:{}+{}", def.kind.name(), ok),
-                format!("op {} ({}) entered object {} while op {} ({}) was still inside (occupancy {}); runner ctx {}", op, def.kind.name(), def.obj, other, ok, before, ctx_code()));
+            let detail = format!("op {} ({}) entered object {} while op {} ({}) was still inside (occupancy {}); runner ctx {}", op, def.kind.name(), def.obj, other, ok, before, ctx_code());
+            ctx.report("C01", "overlap_at_enter", format!("overlap:{}+{}", def.kind.name(), ok), detail.clone());
+            // the same fact breaks the exclusivity clause of the more specific properties
+            let other_kind = if other >= 0 { Some(ctx.prog.ops[other as usize].kind) } else { None };
+            for k in [Some(def.kind), other_kind].into_iter().flatten() {
+                match k {
+                    Kind::TrySync => ctx.report("C09", "try_sync_without_exclusive_access", format!("overlap:{}+{}", def.kind.name(), ok), detail.clone()),
+                    Kind::FutSync => ctx.report("C08", "future_sync_slot_not_exclusive", format!("overlap:{}+{}", def.kind.name(), ok), detail.clone()),
+                    Kind::PipeItem => { let through = ctx.prog.ops.iter().find(|o| o.kind == Kind::PipeItem).and_then(|o| o.pipe).map(|p| ctx.prog.pipes[p].through).unwrap_or(false);
+                                        ctx.report(if through { "C12" } else { "C11" }, "pipe_item_without_exclusive_access", format!("overlap:{}+{}", def.kind.name(), ok), detail.clone()) }
+                    _ => {}
+                }
+            }
         }
         st.inside.store(op + 1, ORD);
         if ctx.has_waiters.load(Ordering::Relaxed) || ctx.prog.fire.iter().any(|a| matches!(a, FAct::WaitStart(_))) { ctx.note_for_firer(); }
@@ -711,6 +726,7 @@ pub fn run_thread(ctx: &Arc<RunCtx>, acts: Vec<TAct>, mortal: Option<Arc<Obj>>) 
             TAct::DropStream(p) => { crate::pipes::drop_stream(ctx, &mut tls, p); ctx.note_for_firer(); }
             TAct::Push(p) => crate::pipes::push_item(ctx, p),
             TAct::Attempt(kind, obj) => attempt(ctx, kind, obj),
+            TAct::Checkpoint => { if let Some(h) = ctx.prog.checkpoint_hold { let _b = ctx.blocked(NO_OP, PH_HOLD); ctx.progress(); ctx.holds[h].wait(); } }
             TAct::WaitStart(op) => {
                 ctx.waiters.lock().unwrap().push(thread::current());
                 ctx.has_waiters.store(true, Ordering::SeqCst);
